@@ -208,11 +208,50 @@ def selfcheck():
 
 
 def plan(tier, seed):
-    return [dict(name=f"hist-{i}", i=i) for i in range(NSHARD)]
+    return [dict(name=f"hist-{i}", i=i) for i in range(NSHARD)] + [dict(name="cross-container", kind="cross")]
+
+
+def check_cross_container(da, db, rec):
+    """copy() with a node of ANOTHER container as source: the copy carries (copies of) the source node's metadata
+    objects - never objects stored for some node of the destination container - or the call is refused."""
+    a, b = C.CTarget(da), C.CTarget(db)
+    try:
+        A, B = a.mc, b.mc
+        A["d"] = 1
+        A["only"] = 2
+        A["grp/x"] = 3
+        A["d"].meta["verif.base"] = {"label": "A-d"}
+        A["only"].meta["verif.base"] = {"label": "A-only"}
+        A["grp/x"].meta["verif.base"] = {"label": "A-grp-x"}
+        B["d"] = 10
+        B["d"].meta["verif.base"] = {"label": "B-d (unrelated)"}
+        for src, dst, exp in (("d", "e", "A-d"), ("only", "f", "A-only"), ("grp", "g/x", "A-grp-x")):
+            case = dict(kind="cross", drivers=[da, db], src=src, dst=dst)
+            try:
+                B.copy(A[src], dst.split("/")[0])
+            except Exception:  # noqa: BLE001 - refusing foreign nodes is fine
+                rec.case(nt_key=None, classes=["cross_container_copy_refused"])
+                continue
+            got = B[dst].meta.get("verif.base")
+            label = got.label if got is not None else None
+            if label != exp:
+                rec.fail("C07:cross-container-copy-wrong-metadata", case, f"B.copy(A[{src!r}], ...): metadata of the copy is "
+                         f"{label!r}", f"{exp!r} (a copy of the source node's object)")
+            q = sorted(n.name for n in B.metador.query("verif.base"))
+            if ("/" + dst) not in q and label is not None:
+                rec.fail("C07:query-missing:cross-container-copy", case, q, "/" + dst)
+            rec.case(nt_key=[da, db, src], classes=["cross_container_copy"], sample=case)
+    finally:
+        a.destroy()
+        b.destroy()
 
 
 def run_shard(shard, tier, seed, rec):
     H.install_work_guard()
+    if shard.get("kind") == "cross":
+        for da, db in (("h5", "h5"), ("ih5", "ih5"), ("h5", "ih5")):
+            check_cross_container(da, db, rec)
+        return
     i = shard["i"]
     n = {"quick": 10, "thorough": 700}[tier]
     drivers = [["h5"], ["ih5"], ["h5"], ["ih5mf"]][i % 4]
@@ -224,6 +263,9 @@ def run_shard(shard, tier, seed, rec):
 def replay(rp, rec):
     H.install_work_guard()
     try:
-        run_case(rp["case"], rec)
+        if rp["case"].get("kind") == "cross":
+            check_cross_container(*rp["case"]["drivers"], rec)
+        else:
+            run_case(rp["case"], rec)
     except Violation as v:
         rec.fail(v.signature, rp["case"], v.observed, v.expected)
